@@ -1681,4 +1681,222 @@ theorem markFilterCoverage_perm (gid : String → Nat) (nonzero : String → Boo
   sortOn_perm_eq_of_inj totalOrd_natLe gid (hp.filter _)
     (fun a b ha hb => hinj a b (mem_filter.mp ha).1 (mem_filter.mp hb).1)
 
+/-! ### InfoCompiler: variable-font fontinfo overrides never reach the master's Info (infoCompiler.py 29-44) -/
+
+theorem alookup_replace_ne (d : InfoD) (k v k' : String) (h : k' ≠ k) :
+    alookup k' (d.map (fun x => if x.1 == k then (k, v) else x)) = alookup k' d := by
+  induction d with
+  | nil => rfl
+  | cons x d ih =>
+    obtain ⟨a, b⟩ := x
+    simp only [beq_iff_eq] at ih
+    by_cases hak : a = k
+    · subst hak
+      have : ¬ a = k' := fun e => h e.symm
+      simp [alookup, this, ih]
+    · simp [alookup, hak, ih]
+
+theorem alookup_replace_self (d : InfoD) (k v : String) (h : (d.map Prod.fst).contains k = true) :
+    alookup k (d.map (fun x => if x.1 == k then (k, v) else x)) = some v := by
+  induction d with
+  | nil => simp at h
+  | cons x d ih =>
+    obtain ⟨a, b⟩ := x
+    by_cases hak : a = k
+    · subst hak; simp [alookup]
+    · have hka : ¬ k = a := fun e => hak e.symm
+      have h' : (d.map Prod.fst).contains k = true := by simpa [hka] using h
+      have ih' := ih h'
+      simp only [beq_iff_eq] at ih'
+      simp [alookup, hak, ih']
+
+theorem alookup_snoc (d : InfoD) (k v k' : String) :
+    alookup k' (d ++ [(k, v)]) = match alookup k' d with
+      | some x => some x
+      | none => if k' = k then some v else none := by
+  induction d with
+  | nil =>
+    by_cases h : k = k'
+    · subst h; simp [alookup]
+    · have : ¬ k' = k := fun e => h e.symm
+      simp [alookup, h, this]
+  | cons x d ih =>
+    obtain ⟨a, b⟩ := x
+    by_cases hak : a = k'
+    · simp [alookup, hak]
+    · simp [alookup, hak, ih]
+
+theorem alookup_none_of_not_contains (d : InfoD) (k : String) (h : ¬ (d.map Prod.fst).contains k = true) :
+    alookup k d = none := by
+  induction d with
+  | nil => rfl
+  | cons x d ih =>
+    obtain ⟨a, b⟩ := x
+    simp only [map_cons, contains_cons, Bool.or_eq_true, not_or] at h
+    have hka : ¬ a = k := by
+      intro e; exact h.1 (by simp [e])
+    simp [alookup, hka, ih h.2]
+
+/-- `setattr(info, k, v)` / `data[k] = v`: afterwards `k` reads `v`, every other attribute reads as before -/
+theorem alookup_setKey (d : InfoD) (k v k' : String) :
+    alookup k' (dictUpdate d [(k, v)]) = if k' = k then some v else alookup k' d := by
+  simp only [dictUpdate]
+  by_cases hk : k' = k
+  · subst hk
+    simp only [if_true]
+    split
+    · rename_i hc; exact alookup_replace_self d k' v hc
+    · rename_i hc
+      rw [alookup_snoc, alookup_none_of_not_contains d k' hc]; simp
+  · simp only [hk, if_false]
+    split
+    · exact alookup_replace_ne d k v k' hk
+    · rw [alookup_snoc]; cases alookup k' d <;> simp [hk]
+
+theorem dictUpdate_cons (d : InfoD) (k v : String) (e : InfoD) :
+    dictUpdate d ((k, v) :: e) = dictUpdate (dictUpdate d [(k, v)]) e := by
+  simp only [dictUpdate]
+  split <;> rfl
+
+/-- `data.update(info)` is the `setattr` loop -/
+theorem dictUpdate_eq_foldl (d e : InfoD) :
+    dictUpdate d e = e.foldl (fun d kv => dictUpdate d [(kv.1, kv.2)]) d := by
+  induction e generalizing d with
+  | nil => rfl
+  | cons x e ih => obtain ⟨k, v⟩ := x; rw [dictUpdate_cons, ih]; rfl
+
+/-- reading the merged Info: the override when there is one, else the master's value (override keys distinct: they come
+from a dict) -/
+theorem alookup_dictUpdate (d e : InfoD) (hn : (e.map Prod.fst).Nodup) (k : String) :
+    alookup k (dictUpdate d e) = match alookup k e with
+      | some v => some v
+      | none => alookup k d := by
+  induction e generalizing d with
+  | nil => rfl
+  | cons x e ih =>
+    obtain ⟨a, b⟩ := x
+    simp only [map_cons, nodup_cons] at hn
+    rw [dictUpdate_cons, ih _ hn.2, alookup_setKey]
+    by_cases hk : a = k
+    · subst hk
+      have : alookup a e = none := alookup_none_of_not_contains e a (by simpa using hn.1)
+      simp [alookup, this]
+    · have : ¬ k = a := fun h => hk h.symm
+      simp [alookup, hk, this]
+
+
+theorem Heap.get_setattr (h : Heap) (t r : Nat) (k v : String) :
+    (h.setattr t k v).get r = if r = t ∧ t < h.objs.length then dictUpdate (h.get t) [(k, v)] else h.get r := by
+  simp only [Heap.setattr, Heap.get, List.getD_eq_getElem?_getD, List.getElem?_set]
+  by_cases hrt : t = r
+  · subst hrt
+    by_cases hl : t < h.objs.length
+    · simp [hl]
+    · simp [hl]
+  · have : ¬ r = t := fun e => hrt e.symm
+    simp [hrt, this]
+
+theorem Heap.length_setattr (h : Heap) (t : Nat) (k v : String) : (h.setattr t k v).objs.length = h.objs.length := by
+  simp [Heap.setattr]
+
+/-- a `setattr` loop on the object at `t`: only that object changes, and it becomes `dictUpdate · ov` -/
+theorem Heap.foldl_setattr (ov : InfoD) (h : Heap) (t : Nat) (ht : t < h.objs.length) :
+    ((ov.foldl (fun h kv => h.setattr t kv.1 kv.2) h).objs.length = h.objs.length) ∧
+    (∀ r, (ov.foldl (fun h kv => h.setattr t kv.1 kv.2) h).get r = if r = t then dictUpdate (h.get t) ov else h.get r) := by
+  induction ov generalizing h with
+  | nil => exact ⟨rfl, fun r => by by_cases e : r = t <;> simp [e, dictUpdate]⟩
+  | cons x ov ih =>
+    obtain ⟨k, v⟩ := x
+    have hl := Heap.length_setattr h t k v
+    obtain ⟨l1, g1⟩ := ih (h.setattr t k v) (by omega)
+    refine ⟨by simpa [hl] using l1, fun r => ?_⟩
+    simp only [foldl_cons]
+    rw [g1 r, Heap.get_setattr, Heap.get_setattr]
+    by_cases e : r = t
+    · subst e
+      simp only [ht, and_self, if_true]
+      exact (dictUpdate_cons _ _ _ _).symm
+    · simp [e]
+
+theorem Heap.get_alloc_old (h : Heap) (d : InfoD) (r : Nat) (hr : r < h.objs.length) : (h.alloc d).1.get r = h.get r := by
+  simp [Heap.alloc, Heap.get, List.getD_eq_getElem?_getD, List.getElem?_append_left hr]
+
+theorem Heap.get_alloc_new (h : Heap) (d : InfoD) : (h.alloc d).1.get (h.alloc d).2 = d := by
+  simp [Heap.alloc, Heap.get, List.getD_eq_getElem?_getD]
+
+/-- the temporary Info is a NEW object -/
+theorem infoInit_fresh (lib : UfoLib) (h : Heap) (src : Nat) (ov : InfoD) : (infoInit lib h src ov).2 = h.objs.length := by
+  cases lib <;> rfl
+
+/-- **infoInit_frame**: InfoCompiler's constructor writes to no Info object that existed before the call — in
+particular not to the default master's (`r = src`) — for a defcon and for a ufoLib2 master, whatever the overrides. -/
+theorem infoInit_frame (lib : UfoLib) (h : Heap) (src : Nat) (ov : InfoD) (r : Nat) (hr : r < h.objs.length) :
+    (infoInit lib h src ov).1.get r = h.get r := by
+  cases lib with
+  | defcon => exact Heap.get_alloc_old h _ r hr
+  | ufoLib2 =>
+    simp only [infoInit]
+    have hlen : (h.alloc (h.get src)).2 < (h.alloc (h.get src)).1.objs.length := by simp [Heap.alloc]
+    rw [(Heap.foldl_setattr ov _ _ hlen).2 r]
+    have : ¬ r = (h.alloc (h.get src)).2 := by simp only [Heap.alloc]; omega
+    simp only [this, if_false]
+    exact Heap.get_alloc_old h _ r hr
+
+/-- **infoInit_temp**: the temporary UFO's Info is the master's Info updated with the overrides — the same for both UFO
+libraries (serialise / update / deserialise  =  copy / setattr loop). -/
+theorem infoInit_temp (lib : UfoLib) (h : Heap) (src : Nat) (ov : InfoD) :
+    (infoInit lib h src ov).1.get (infoInit lib h src ov).2 = dictUpdate (h.get src) ov := by
+  cases lib with
+  | defcon => exact Heap.get_alloc_new h _
+  | ufoLib2 =>
+    simp only [infoInit]
+    have hlen : (h.alloc (h.get src)).2 < (h.alloc (h.get src)).1.objs.length := by simp [Heap.alloc]
+    rw [(Heap.foldl_setattr ov _ _ hlen).2]
+    simp only [if_true]
+    rw [Heap.get_alloc_new]
+
+theorem infoInit_lib_agnostic (h : Heap) (src : Nat) (ov : InfoD) :
+    (infoInit .ufoLib2 h src ov).1.get (infoInit .ufoLib2 h src ov).2 =
+      (infoInit .defcon h src ov).1.get (infoInit .defcon h src ov).2 := by
+  rw [infoInit_temp, infoInit_temp]
+
+/-- **C08_vfinfo**: on the model, both predicates of the spec hold for every master Info, every set of overrides and both
+libraries: the master's Info is unchanged, and the temporary Info reads the override where there is one and the
+master's value elsewhere. -/
+theorem C08_vfinfo (lib : UfoLib) (h : Heap) (src : Nat) (hs : src < h.objs.length) (ov : InfoD)
+    (hn : (ov.map Prod.fst).Nodup) :
+    holdsInfoStable (h.get src) ((infoInit lib h src ov).1.get src) = true ∧
+    holdsOverride (h.get src) ov ((infoInit lib h src ov).1.get (infoInit lib h src ov).2) = true := by
+  refine ⟨by simp [holdsInfoStable, infoInit_frame lib h src ov src hs], ?_⟩
+  rw [infoInit_temp]
+  simp only [holdsOverride, all_eq_true, beq_iff_eq]
+  intro e _
+  exact alookup_dictUpdate _ _ hn e.1
+
+/-- what the copy is for: with `temp_ufo.info = ufo.info` the loop writes the overrides into the MASTER's Info -/
+theorem infoInitAliased_touches (h : Heap) (src : Nat) (hs : src < h.objs.length) (ov : InfoD) :
+    (infoInitAliased h src ov).1.get src = dictUpdate (h.get src) ov := by
+  simp only [infoInitAliased]
+  rw [(Heap.foldl_setattr ov h src hs).2 src]; simp
+
+example : (infoInitAliased ⟨[[("familyName", "\"Fam\""), ("ascender", "\"800\"")]]⟩ 0 [("familyName", "\"Fam VF\"")]).1.get 0
+    = [("familyName", "\"Fam VF\""), ("ascender", "\"800\"")] := by decide
+example : (infoInit .ufoLib2 ⟨[[("familyName", "\"Fam\""), ("ascender", "\"800\"")]]⟩ 0 [("familyName", "\"Fam VF\""), ("xHeight", "\"510\"")]).1.objs
+    = [[("familyName", "\"Fam\""), ("ascender", "\"800\"")], [("familyName", "\"Fam VF\""), ("ascender", "\"800\""), ("xHeight", "\"510\"")]] := by decide
+
+/-- a variable build with overrides leaves the default master's Info as it was: the C07 hypothesis of `C08_history`
+for the Info component, proved instead of assumed -/
+theorem touchInfo_id (lib : UfoLib) (ov d : InfoD) : touchInfo lib ov d = d := by
+  have := infoInit_frame lib ⟨[d]⟩ 0 ov 0 (by simp)
+  simpa [touchInfo, Heap.get] using this
+
+/-- **C08_history_vfinfo**: a history in which every call is allowed to run InfoCompiler with arbitrary variable-font
+overrides on the master (static after variable, variable twice, …): every call returns what a first call returns. -/
+theorem C08_history_vfinfo (build : O → List String → FeaClass → InfoD → F) (lib : UfoLib) (ov : InfoD)
+    (s : Source InfoD) (calls : List (O × Option (List String) × Option FeaClass)) :
+    history build (fun s => { s with content := touchInfo lib ov s.content }) s calls =
+      calls.map (fun c => publicCompile build c.1 c.2.1 c.2.2 s) :=
+  C08_history build _ (fun s => by simp [touchInfo_id]) s calls
+
+
 end Ufo2ft.C08
